@@ -137,6 +137,9 @@ class QueueModel:
                 return
             self.count += 1
             if jid is None:
+                # server-numbered: the next number that is not the id of a job the server knows (a client may have chosen it)
+                while self.count in self.jobs and self.count not in self.dropped:
+                    self.count += 1
                 jid = self.count
                 if jid in self.issued:
                     self.flag("id-reused", "new job got id %r which was already issued" % (jid,))
